@@ -81,6 +81,23 @@ theorem cg_reports_success_only_if (hip : Bilin ip) (hm : Linear (K := K) mat) (
   · exact Or.inr (Or.inr (Or.inr (Or.inl ⟨hs.2.1, hs.2.2⟩)))
   · exfalso; have := hs.1; omega
 
+/-- **Positive definite systems never fail.** For a symmetric form with `0 ≤ ip a a`, a linear self-adjoint positive
+    definite operator, `eps, tiny ≥ 0` and every stopping configuration (including `_raise_nonposdef = True`): the eager
+    solver never raises and never stops for curvature or energy reasons — it returns with `info = 0` (then
+    `cg_reports_success_only_if` gives the criterion at the true residual) or at the iteration limit (`info = maxiter`);
+    by `static_eq_eager` the compiled solver returns the same. -/
+theorem spd_never_fails (hip : SymmBilin ip) (hm : Linear (K := K) mat) (hsa : SelfAdj ip mat)
+    (hnn : ∀ a, 0 ≤ ip a a) (hpd : ∀ v : V, v ≠ 0 → 0 < ip v (mat v)) (heps : 0 ≤ c.eps) (htiny : 0 ≤ c.tiny) :
+    ∃ res, cgEager c ip mat j x0 = .ok res ∧ (res.info = 0 ∨ (res.info = (maxiterEff c : Int) ∧ res.nit = maxiterEff c)) := by
+  obtain ⟨res, h, hr⟩ := cgEager_spd c ip mat j hip hm hsa hnn hpd heps htiny x0
+  refine ⟨res, h, ?_⟩
+  rcases hr with h0 | hw
+  · exact Or.inl h0
+  · have hs := (cgEager_specA c ip mat j hip.toBilin hm x0 res h).1
+    unfold FinalSpec at hs
+    rw [hw] at hs
+    exact Or.inr hs
+
 /-- **Failure is reported when asked to.** With `_raise_nonposdef = True`: if the first search direction (the initial
     residual `g = A x₀ − j ≠ 0`) has non-positive curvature, the eager solver raises and the compiled solver returns
     `info = −1`; and more generally the eager solver never returns from a non-positive-curvature stop. -/
